@@ -326,6 +326,8 @@ def main(argv=None):
             print(v)
         for d in defects:
             print("CHECKER-DEFECT:", d)
+        for u in undecided:
+            print("UNDECIDED (besides the violation):", u)
         return 1
     if defects:
         for d in defects:
